@@ -250,6 +250,15 @@ def r_create_domain(ck: Checker) -> None:
     ck.add("domain rule head = domain predicate with the original head arguments", m is not None, func, r, f"head `{short(head, 160)}`", "plain rule (C06), same arguments: p(t) in M implies dom_p(t) in M")
     org = {s.origin.get(m.group(1), "") for s in it.states(r)} if m else set()
     ck.add("one domain rule per registered (head, condition) pair", org == {f"self.domain_rules[{pred}][*][0]"} and unparse(r.args[2]) in [n for s in it.states(r) for n, o in s.origin.items() if o == f"self.domain_rules[{pred}][*][1]"], func, r, f"head atom from {sorted(org)}, body `{unparse(r.args[2])}`", "")
+    # every element of the condition - literal, conditional literal, aggregate - has its domain predicates defined
+    dep = resolved_calls(ck.prg, func, f"ngo.{DP}.__create_domain_for_condition")
+    ck.need(len(dep) == 1, "create_domain emits the rules of the domain predicates its condition uses")
+    dl = enclosing_loop(func, dep[0])
+    ok_all, n_all = every_iteration_reaches(ck, func, dl, dep[0], None) if dl is not None else (False, 0)
+    body_name = unparse(r.args[2])
+    ck.add("the domain predicates of EVERY condition element are defined", ok_all and n_all > 0 and dl is not None and unparse(dl.iter) == body_name and unparse(dep[0].args[0]) == unparse(dl.target), func, dep[0],
+           f"loop over `{unparse(dl.iter) if dl is not None else None}` (rule body `{body_name}`), call on every iteration: {ok_all}",
+           "`__dom_a(X,V) :- c(X), v(X,V), __dom_b(X,Y) : d(Y)`: if the rules of __dom_b are skipped because the element is a conditional literal, __dom_b is empty and the domain of a is no over-approximation any more")
     cdc = ck.func(f"{DP}.__create_domain_for_condition")
     itc = ck.interp(cdc)
     rec = resolved_calls(ck.prg, cdc, f"ngo.{DP}.create_domain")
